@@ -197,6 +197,17 @@ def run(ctx):
             # error mapping
             errs = [c for c in q.calls("new_err")]
             okm = len(errs) == 1 and "PyValueError" in errs[0].resolved and any(a[0] == "variant" and a[2] == ("Err",) for a in errs[0].guards)
+            if not errs:
+                # `core_call(..).map_err(|e| PyValueError::new_err(..))`
+                for me in q.calls("map_err"):
+                    recv_core = me.args and me.args[0][0] == "call" and me.args[0][4] in ("create_and_place_order", "place_order")
+                    clo = me.args[1] if len(me.args) > 1 else None
+                    if recv_core and clo is not None and clo[0] == "agg" and clo[1] == "closure":
+                        from analysis.beta import closure_fn
+                        cf = closure_fn(m.w, clo)
+                        if cf is not None:
+                            errs = [c for c in m.w.q(cf).calls("new_err")]
+                            okm = len(errs) == 1 and "PyValueError" in errs[0].resolved and same(q.ret(), me.result)
             ctx.check(okm, "errors", cls + ".place_order", errs[0].loc() if errs else ctx.loc(f), "a core OrderError becomes PyValueError", "error mapping: %s" % [c.resolved for c in errs])
             own = [s_ for s_ in m.w.effects.summary(f)["sites"] if s_[0].root[0] == "param" and not s_[3].startswith("call ")]
             ctx.check(not own, "errors", cls + ".place_order|no-own-effects", ctx.loc(f), "the wrapper has no effect of its own besides the core call (a rejected order leaves the object unchanged, C12)")
